@@ -210,7 +210,8 @@ func (h H) lockDiscipline(rule string) {
 			// the mutex is the RWMutex local of serve
 			ok := false
 			for k, mode := range ls[in] {
-				if strings.HasPrefix(k, "local:") && (!write || mode == "W") {
+				// serve's own mutex, directly or handed to the connection goroutine by address
+				if (strings.HasPrefix(k, "local:") || strings.HasPrefix(k, "λ:local:")) && (!write || mode == "W") {
 					ok = true
 				}
 			}
